@@ -63,6 +63,13 @@ def _check(pid, tier, seed, runs, budget, info, scratch, t0):
             for e in errs:
                 print("HARNESS-ERROR " + e.replace("\n", " | ")[:2000])
             return 2
+    crosscheck = {}
+    if pid == "C11" and (tier == "thorough" or os.environ.get("VERIF_CROSSCHECK")):
+        crosscheck = zygote_crosscheck(pid, seed, tier, cat, refs)
+        if crosscheck.get("mismatch"):
+            print("HARNESS-ERROR zygote references differ from true fresh-interpreter references: %s"
+                  % json.dumps(crosscheck["mismatch"])[:800])
+            return 2
     hist_budget = max(15.0, budget - ref_wall) if pid == "C11" and tier == "quick" else budget
     grace = 400 if tier == "quick" else 1200
     res = orchestrator.run_workers(
@@ -125,6 +132,7 @@ def _check(pid, tier, seed, runs, budget, info, scratch, t0):
             "catalogue_entries": len(cat["entries"]),
             "pool_rasters": len(cat["pool"]),
             "references_computed": len(refs),
+            "zygote_vs_fresh_subprocess_crosscheck": crosscheck,
             "reference_wall_s": round(ref_wall, 1),
             "by_family": fam,
             "faults_fired": faults,
@@ -164,6 +172,32 @@ def _check(pid, tier, seed, runs, budget, info, scratch, t0):
     if errs or calls == 0:
         return 2
     return 0
+
+
+def zygote_crosscheck(pid, seed, tier, cat, refs, n=16):
+    """A seeded sample of entries re-run in true `python -m` subprocesses must give the
+    digests the zygote children gave (the 'fork-from-zygote is a fresh interpreter' assumption)."""
+    import subprocess
+    import sys
+    from concurrent.futures import ThreadPoolExecutor
+    from . import determinism
+    rng = util.rng_for(seed, "crosscheck", pid)
+    ids = [e["id"] for e in cat["entries"] if e["family"] != "viewshed"]
+    ids = sorted(rng.sample(ids, min(n, len(ids))))
+    env = determinism.child_env()
+
+    def one(eid):
+        r = subprocess.run([sys.executable, "-m", "dst.ref_subprocess", pid, str(seed), tier, str(eid)],
+                           capture_output=True, text=True, env=env, cwd=VERIF, timeout=1200)
+        for line in r.stdout.splitlines():
+            if line.startswith("{"):
+                return eid, json.loads(line)["digest"]
+        return eid, "ERROR:" + r.stderr[-300:]
+    with ThreadPoolExecutor(max_workers=min(NWORKERS, len(ids))) as ex:
+        got = dict(ex.map(one, ids))
+    mismatch = [{"entry": i, "subprocess": got[i], "zygote": refs[str(i)]["digest"]} for i in ids
+                if got[i] != refs[str(i)]["digest"]]
+    return {"entries_checked": len(ids), "mismatch": mismatch}
 
 
 def parallel_dispatchers():
